@@ -57,6 +57,10 @@ func c14Roundtrip(W, L int) {
 	if err != nil {
 		return
 	}
+	// the caller recycles its buffer: the decoded automaton must not live in it
+	for i := range enc {
+		enc[i] = rt.Byte("scribble")
+	}
 	dwCheckIndex(d2, orig, L+1, "decoded")
 	rt.Check(d2.numberOfNodes() == d.numberOfNodes(), "decoded automaton has a different node count")
 	enc2, err := d2.GobEncode()
